@@ -2,6 +2,7 @@ from copy import deepcopy
 from dataclasses import dataclass, fields, replace
 from typing import Type, TypeVar, Any, Union, Callable, Dict
 
+from pedantic.exceptions import PedanticTypeCheckException
 from pedantic.get_context import get_context
 from pedantic.type_checking_logic.check_types import assert_value_matches_type
 
@@ -123,6 +124,10 @@ def frozen_dataclass(
             _context = {**_context, **self.__init__.__globals__, self.__class__.__name__: self.__class__}
 
             for field in props:
+                if not hasattr(self, field.name):
+                    raise PedanticTypeCheckException(
+                        f'In dataclass "{cls_.__name__}" the field "{field.name}" has no value.')
+
                 assert_value_matches_type(
                     value=getattr(self, field.name),
                     type_=field.type,
